@@ -16,6 +16,15 @@ outcomes of all possible current states.  Configuration and slot kernel: `Nv.Gen
 -/
 open Nv Nv.C14
 
+/-- strict decimal parsers (Lean's `toNat?` also accepts `_` separators; Go's `strconv` does not) -/
+def natOf (s : String) : Option Nat :=
+  if s.isEmpty || s.length > 9 || !s.all Char.isDigit then none else s.toNat?
+def intOf (s : String) : Option Int :=
+  if s.startsWith "-" then
+    let d := (s.drop 1).toString
+    if d.isEmpty || d.length > 19 || !d.all Char.isDigit then none else d.toNat?.map (fun n => -(n : Int))
+  else if s.isEmpty || s.length > 19 || !s.all Char.isDigit then none else s.toNat?.map (fun n => (n : Int))
+
 def cfg : Cfg := Nv.Gen.C14.cfg
 def slotK : Slot := Nv.Gen.C14.normalizeSlotIndex
 
@@ -63,19 +72,19 @@ def parseKind : String → Option Kind
 def step (st : St) (line : String) : St × String :=
   match words line with
   | ["new", k, n, c] =>
-    (match parseKind k, parseNat? n, parseNat? c with
+    (match parseKind k, natOf n, natOf c with
      | some k, some n, some c =>
        if n ≥ 1 && n ≤ 1024 && c ≤ 1024 && (k == .mline || n == 1) then (some [Exec.init k n c], "ok") else (none, "bad-op")
      | _, _, _ => (none, "bad-op"))
   | ["slot", h, s] =>
-    (match parseInt? h, parseInt? s with
+    (match intOf h, intOf s with
      | some h, some s =>
        if inInt64 h && inInt64 s && decide (0 < s) then
          (st, toString (slotK (BitVec.ofInt 64 h) (BitVec.ofInt 64 s)).toInt)
        else (st, "bad-op")
      | _, _ => (st, "bad-op"))
   | ["call", id, h] =>
-    (match st, parseNat? id, parseInt? h with
+    (match st, natOf id, intOf h with
      | some (x :: xs), some id, some h =>
        if id == x.next && inInt64 h then
          let r := applyAll (x :: xs) (fun _ => [.submit (BitVec.ofInt 64 h) true, .submit (BitVec.ofInt 64 h) false]) "-"
@@ -83,7 +92,7 @@ def step (st : St) (line : String) : St × String :=
        else (st, "bad-op")
      | _, _, _ => (st, "bad-op"))
   | ["fin", id, kind, v] =>
-    (match st, parseNat? id, parseNat? v with
+    (match st, natOf id, natOf v with
      | some (x :: xs), some id, some v =>
        if (kind == "ok" || kind == "err") && id < x.next then
          let res := if kind == "ok" then Res.ok v else Res.err v
@@ -93,7 +102,7 @@ def step (st : St) (line : String) : St × String :=
        else (st, "bad-op")
      | _, _, _ => (st, "bad-op"))
   | ["cancel", id] =>
-    (match st, parseNat? id with
+    (match st, natOf id with
      | some (x :: xs), some id =>
        if id < x.next then
          let r := applyAll (x :: xs) (fun y => match ownerOf y id with
